@@ -14,6 +14,7 @@ var Registry = map[string]Prop{
 	"C09": {C09, c09Replay},
 	"C10": {C10, c10Replay},
 	"C11": {C11, c11Replay},
+	"C12": {C12, c12Replay},
 	"C13": {C13, c13Replay},
 	"C14": {C14, c14Replay},
 	"C19": {C19, c19Replay},
